@@ -48,6 +48,8 @@ def _target_src(kind, a):
 
 
 def source(case):
+    if case.get("elsewhere") == "module_twin":
+        return _source(case) + '\npub mod v2 {\n    #[typeshare]\n    #[serde(rename = "TwinOfTarget")]\n    pub struct Target {\n        pub twin: bool,\n    }\n}\n'
     ident = case.get("ident", "Target")
     return _source(case).replace("Target", ident) if ident != "Target" else _source(case)
 
@@ -72,7 +74,7 @@ def _source(case):
 def elsewhere_files(case):
     """folder mode: another crate that defines a type with the same Rust identifier as the target"""
     e = case.get("elsewhere", "none")
-    if e == "none":
+    if e in ("none", "module_twin"):
         return []
     ren = '#[serde(rename = "ApiTarget")]\n' if e == "same_ident_renamed" else ""
     src = f"#[typeshare]\n{ren}pub struct Target {{ pub api: bool }}\n#[typeshare]\npub struct ApiOnly {{ pub a: u32 }}\n"
@@ -235,6 +237,12 @@ def run(chk):
                 "prefixed-original" if e["ref"] == e["prefix"] + e["target"]["ident"] else "expected-name" if e["ref"] == exp else "other")
         # when the DEFINITION is what is off (absent under the required name) every site shows it: one signature per item kind
         site_dim = site if defined else "anysite"
+        if case.get("elsewhere") == "module_twin" and e["ref"] == e["prefix"] + "TwinOfTarget":
+            # one root cause (references are resolved by bare identifier, whatever module they are written in): one signature per language
+            chk.mismatch(f"C09/{lang}/module-twin/ref=name-of-the-twin-in-the-nested-module",
+                         f"{lang}: {site} reference to the outer `Target` is spelled `{e['ref']}`, the name of v2::Target; required `{exp}`",
+                         {"case": case, "lang": lang, "site": site}, exp, e["ref"])
+            continue
         where = lang + ("+folder" if case.get("mode") == "folder" else "") + (":" + case["elsewhere"] if case.get("elsewhere", "none") != "none" else "")
         chk.mismatch(f"C09/{where}{ident_dim}/{case['kind'] if not site.startswith('second') else 'struct'}/{site_dim}/{'renamed' if e['target'].get('rename') else 'plain'}/"
                      f"{'prefix' if e['prefix'] else 'noprefix'}/ref={form}/def={'present' if defined else 'absent'}",
